@@ -281,6 +281,46 @@ def announce(ctx, meth, signal, table):
         n += 1
         sends = [c for c in p.calls(deep=False) if kind(c[2]) == 'attr' and
                  c[2][2] == 'sendMessage']
+        cls = prog.cls('message.SignalMessage')
+        init = cls.methods['__init__']
+
+        def fields(sg):
+            b_ = dict(zip(init.params()[1:], sg[3]))
+            b_.update(dict(sg[4]))
+            return b_
+        # an export onto an occupied path may ALSO announce the departure of
+        # the object it replaces - with THAT object's interfaces
+        extra = []
+        if meth == 'exportObject' and len(sends) > 1:
+            # the object being exported: the receiver of getObjectPath()
+            # in the key it is stored under
+            newp = ('param', fi.params()[1])
+            for e_ in p.trace:
+                if e_[0] == 'setsub' and e_[1] == table and \
+                        kind(e_[2]) == 'call' and \
+                        kind(e_[2][2]) in ('attr', 'bound'):
+                    newp = e_[2][2][1]
+            for c_ in list(sends):
+                sg = c_[3][0] if c_[3] else None
+                if kind(sg) == 'call' and \
+                        sg[1] == 'message.SignalMessage' and \
+                        fields(sg).get('member') == C('InterfacesRemoved'):
+                    extra.append(sg)
+                    sends.remove(c_)
+            for sg in extra:
+                body_ = fields(sg).get('body')
+                il = body_[1][1][1] if kind(body_) == 'list' and \
+                    len(body_[1]) == 2 else body_
+                ctx.ob('C16.D2', fi.qualname,
+                       'replaced-object-leaves-with-its-own-interfaces',
+                       not contains(il, lambda x: kind(x) == 'call' and
+                                    kind(x[2]) in ('attr', 'bound') and
+                                    str(x[2][2]).endswith('getInterfaces')
+                                    and x[2][1] == newp),
+                       'the InterfacesRemoved sent for the object an export '
+                       'replaces lists the interfaces of the object being '
+                       'EXPORTED (%s), not of the one that leaves'
+                       % term_str(il)[:80])
         ok = len(sends) == 1 and kind(sends[0][3][0]) == 'call' and \
             sends[0][3][0][1] == 'message.SignalMessage'
         ctx.ob('C16.D2', fi.qualname, 'one-signal', ok,
@@ -289,10 +329,7 @@ def announce(ctx, meth, signal, table):
         if not ok:
             continue
         sig = sends[0][3][0]
-        cls = prog.cls('message.SignalMessage')
-        init = cls.methods['__init__']
-        b = dict(zip(init.params()[1:], sig[3]))
-        b.update(dict(sig[4]))
+        b = fields(sig)
         ctx.ob('C16.D2', fi.qualname, 'signal-name',
                b.get('member') == C(signal) and b.get('interface') == C(OM),
                '%s must emit %s.%s; emits %s.%s' % (
